@@ -225,6 +225,12 @@ class EvalMixin(object):
         if self.in_contract and node.id in self.unit.prebind:
             st.env[node.id] = self.make_value(self.unit.prebind[node.id], st, node.id)   # unbound yet: arbitrary
             return st.env[node.id]
+        import os as _os
+        if _os.path.exists(_os.path.join(self.repo, "shroud", node.id + ".py")):
+            return VNS(node.id)
+        cv = self.resolve_constant(VNS(self.path.split("/")[-1][:-3]), node.id, st)
+        if cv is not None:
+            return cv
         raise OutOfSubset("name %r is not bound on this path" % node.id, node)
 
     def ev_JoinedStr(self, node, st):
@@ -743,6 +749,11 @@ class EvalMixin(object):
         return self.getattr(base, node.attr, st, node)
 
     def getattr(self, base, name, st, node):
+        if isinstance(base, VNS):
+            cv = self.resolve_constant(base, name, st)
+            if cv is None:
+                raise OutOfSubset("%s.%s is not a literal constant of the repository" % (".".join((base.module,) + base.path), name), node)
+            return cv
         if isinstance(base, VRef):
             cell = st.heap[base.oid]
             if isinstance(cell, HObj):
@@ -772,9 +783,66 @@ class EvalMixin(object):
             raise PathEnd()
         raise OutOfSubset("attribute %s of %r" % (name, base), node)
 
+    def resolve_constant(self, ns, name, st):
+        """module-level / class-level literal constant read from the real source (assumed never mutated)"""
+        import os as _os
+        fn = _os.path.join(self.repo, "shroud", ns.module + ".py")
+        if not _os.path.exists(fn):
+            return None
+        tree = self._mod_cache.get(fn)
+        if tree is None:
+            tree = ast.parse(open(fn).read())
+            self._mod_cache[fn] = tree
+        body = tree.body
+        for p_ in ns.path:
+            nxt = [n for n in body if isinstance(n, ast.ClassDef) and n.name == p_]
+            if not nxt:
+                return None
+            body = nxt[0].body
+        for n in body:
+            if isinstance(n, ast.ClassDef) and n.name == name:
+                return VNS(ns.module, ns.path + (name,))
+            if isinstance(n, ast.Assign) and len(n.targets) == 1 and isinstance(n.targets[0], ast.Name) and n.targets[0].id == name:
+                try:
+                    val = ast.literal_eval(n.value)
+                except Exception:
+                    return None
+                self.assumptions.add("constant %s.%s read from the source text; assumed not mutated at run time"
+                                     % (".".join((ns.module,) + ns.path), name))
+                return self.lift(val, st)
+        return None
+
+    def lift(self, val, st):
+        if val is None:
+            return VNone()
+        if isinstance(val, bool):
+            return VBool(val)
+        if isinstance(val, int):
+            return VInt(val)
+        if isinstance(val, str):
+            return VStr(val)
+        if isinstance(val, (list, tuple)):
+            items = [self.lift(x, st) for x in val]
+            return st.alloc(HCList(items)) if isinstance(val, list) else VTuple(items)
+        if isinstance(val, dict) and all(isinstance(k, str) for k in val):
+            return st.alloc(HDict(items=dict((k, self.lift(v, st)) for k, v in val.items())))
+        raise OutOfSubset("constant of type %s" % type(val).__name__)
+
     def ev_Call(self, node, st):
         if isinstance(node.func, ast.Name) and node.func.id in self.special_forms:
             return self.special_forms[node.func.id](node, st)
+        if isinstance(node.func, ast.Attribute) and node.func.attr == "format" and len(node.args) == 1 \
+                and isinstance(node.args[0], ast.Starred) and not node.keywords:
+            tmpl = self.ev(node.func.value, st)
+            lst = self.ev(node.args[0].value, st)
+            if isinstance(tmpl, VStr) and isinstance(lst, VRef) and isinstance(st.heap[lst.oid], (HList, HCList)):
+                n = self.as_hlist(st.heap[lst.oid], ek="py").n
+                from .methods import VALIDFMT, FMTRES
+                # str.format(*args) on a non-constant template: defined only if the template is a valid format
+                # string for that many positional arguments (otherwise ValueError / IndexError / KeyError)
+                self.safety(st, "ValueError", VALIDFMT(tmpl.e, n), node,
+                            "template may contain braces that are not valid replacement fields")
+                return VStr(FMTRES(tmpl.e, n))
         f = self.ev(node.func, st)
         if any(isinstance(a, ast.Starred) for a in node.args) or any(k.arg is None for k in node.keywords):
             raise OutOfSubset("*args/**kwargs call", node)
